@@ -1,5 +1,6 @@
 """C14 — ORDER BY: comparator structure."""
 import re
+import json
 import panics
 from core import CheckError
 from mirutil import (call_name_matches, provenance, bool_switch, edge_dominates, enumerate_paths, comes_from_call,
@@ -33,6 +34,105 @@ def find(ck, facts, rule, name_re, what):
     return fns[0]
 
 
+def cmp_bindings_loop_form(fn):
+    """cmp_bindings_with as a loop: the header is the `Iterator::next` on an iterator over the `criteria` parameter; returns the loop
+    body as a loop-free copy of the function (edges back to the header end in a fresh return block) plus three facts about the
+    tie-breaking, or None when the function does not have that form."""
+    import copy
+    import core
+    from mirutil import leaf_calls
+    heads = []
+    for bi, t in fn.calls():
+        if call_name_matches(t, r"iter::Iterator::next$") and t["args"] and t["args"][0][0] != "k":
+            if any(n.startswith("param:3") for n in leaf_calls(fn, t["args"][0], limit=60)):
+                heads.append((bi, t))
+    if len(heads) != 1 or heads[0][1].get("to") is None:
+        return None
+    hb, ht = heads[0]
+    # the decision on next()'s Option
+    sw = None
+    for cand in sorted(fn.reachable(ht["to"])):
+        tt = fn.blocks[cand]["t"]
+        if tt["t"] == "switch" and (tt.get("variants") or {}).get("enum") == "core::option::Option":
+            o = fn.origin(tt["on"])
+            if o[0] == "rvalue" and o[1][0] == "discr" and o[1][1] and o[1][1][0] == ht["dest"][0]:
+                sw = (cand, tt)
+                break
+    if sw is None:
+        return None
+    names = sw[1]["variants"]["names"]
+    some = [tb for v, tb in sw[1]["vals"] if names.get(v) == "Some"]
+    none = [tb for v, tb in sw[1]["vals"] if names.get(v) == "None"] or [sw[1]["else"]]
+    if not some:
+        some = [sw[1]["else"]]
+    body, exit_ = some[0], none[0]
+    j = copy.deepcopy(fn.j)
+    R = len(j["blocks"])
+    j["blocks"].append({"s": [], "t": {"t": "ret", "file": fn.file, "line": fn.line}})
+    for b in j["blocks"][:R]:
+        t = b["t"]
+        for k in ("to", "else"):
+            if t.get(k) == hb:
+                t[k] = R
+        if t.get("vals"):
+            t["vals"] = [[v, (R if tb == hb else tb)] for v, tb in t["vals"]]
+    body_fn = core.Fn(fn.crate, j)
+    in_body = fn.reachable(body, avoid={hb})
+    # the decision that separates a tie from a verdict: `o != Ordering::Equal` / `o == Ordering::Equal` / `match o { Equal => .. }`;
+    # exactly the Equal side may reach the loop header again, the other side must not
+    ties_continue = False
+    for b in sorted(in_body):
+        tie_edges, other_edges = [], []
+        bs = bool_switch(fn, b)
+        if bs and bs[0][0] == "call" and call_name_matches(bs[0][1], r"cmp::PartialEq(<.*>)?>?::(ne|eq)$"):
+            variants = []
+            for a_ in bs[0][1]["args"]:
+                o_ = fn.origin(a_)
+                if o_[0] == "const" and o_[1].get("kind") == "enumref" and o_[1].get("enum") == "core::cmp::Ordering":
+                    variants.append(o_[1].get("variant"))
+                elif o_[0] == "agg" and o_[1].get("def") == "core::cmp::Ordering":
+                    variants.append(o_[1].get("vname"))
+            if variants != ["Equal"]:
+                continue
+            is_ne = (bs[0][1]["f"].get("name") or "").endswith("::ne")
+            tie_edges, other_edges = ([bs[2]], [bs[1]]) if is_ne else ([bs[1]], [bs[2]])
+        else:
+            t_ = fn.blocks[b]["t"]
+            if t_["t"] == "switch" and (t_.get("variants") or {}).get("enum") == "core::cmp::Ordering":
+                nm_ = t_["variants"]["names"]
+                listed = {nm_.get(v): tb for v, tb in t_["vals"]}
+                if "Equal" in listed:
+                    tie_edges = [listed["Equal"]]
+                    other_edges = [tb for n_, tb in listed.items() if n_ != "Equal"] + ([t_["else"]] if len(listed) < 3 else [])
+                elif len(listed) == 2:
+                    tie_edges = [t_["else"]]
+                    other_edges = list(listed.values())
+        if tie_edges and all(hb in fn.reachable(e) for e in tie_edges) and not any(hb in fn.reachable(e) for e in other_edges) \
+                and all(any(r in fn.reachable(e) for r in fn.ret_blocks()) for e in other_edges):
+            ties_continue = True
+    rets_in_body = [r for r in fn.ret_blocks() if r in in_body]
+    # what the early return returns: an assignment of a non-constant to the return place inside the body
+    computed = False
+    for b in in_body:
+        for st in fn.blocks[b]["s"]:
+            if st[0] == "=" and st[1] == [0] and st[2][0] == "use" and st[2][1][0] != "k":
+                computed = True
+    exit_equal = False
+    exit_blocks = set()
+    for b in fn.reachable(exit_, avoid={hb}):
+        for st in fn.blocks[b]["s"]:
+            if st[0] == "=" and st[1] == [0]:
+                sdesc = json.dumps(st[2])
+                if "Equal" in sdesc:
+                    exit_equal = True
+                    exit_blocks.add(b)
+    # the code after the loop is entered from the header only (the iterator is exhausted): a `break` out of the body would end the
+    # comparison on the current criterion and ignore the remaining ones
+    breaks = sorted(exit_blocks & in_body)
+    return dict(body=(body_fn, body), ties_continue=ties_continue, early_return_computed=bool(rets_in_body) and computed, exit_equal=exit_equal,
+                breaks=breaks)
+
+
 def cmp_bindings_rule(ck, facts):
     fn = find(ck, facts, "R14.1", r"order_by::cmp_bindings_with$", "cmp_bindings_with")
     if fn is None:
@@ -56,11 +156,23 @@ def cmp_bindings_rule(ck, facts):
         if nm.endswith("cmp::Ordering::then_with"):
             return "then_with"
         return None
+    loop_form = None
     try:
         paths = enumerate_paths(fn, 0, tok, on_stmt=stm)
     except CheckError as e:
-        ck.bad("R14.1", key + "#shape", "cmp_bindings_with is not the audited recursive shape (%s): its key-by-key structure cannot be read" % e, fn.loc)
-        return
+        # the same comparator written as a loop over the criteria with an early return (`for (expr, desc) in criteria { ..; if o != Equal
+        # { return o } } Equal`): read one iteration (the loop body with its back edge cut) with the same path enumerator
+        loop_form = cmp_bindings_loop_form(fn)
+        if loop_form is None:
+            ck.bad("R14.1", key + "#shape", "cmp_bindings_with is neither the audited recursive shape nor a loop over the criteria (%s): its "
+                   "key-by-key structure cannot be read" % e, fn.loc)
+            return
+        body_fn, body_start = loop_form["body"]
+        try:
+            paths = enumerate_paths(body_fn, body_start, tok, on_stmt=stm)
+        except CheckError as e2:
+            ck.bad("R14.1", key + "#shape", "cmp_bindings_with: the body of the loop over the criteria cannot be read (%s)" % e2, fn.loc)
+            return
     table = {}
     for conds, toks in paths:
         opts = tuple(o for d, o, s in conds if o in ("Some", "None"))
@@ -80,11 +192,12 @@ def cmp_bindings_rule(ck, facts):
                 good = "sparql_order_by" in seq
             else:
                 good = False
-            if not good or "then_with" not in seq:
+            if not good or ("then_with" not in seq and loop_form is None):
                 ok = False
                 msgs.append((opts, seq))
     if ok and len(table) >= 3:
-        ck.ok("R14.1", "cmp_bindings_with: (None,None)->Equal, (None,Some)->Less, (Some,_)->sparql_order_by; every path ends in then_with(rest)")
+        ck.ok("R14.1", "cmp_bindings_with: (None,None)->Equal, (None,Some)->Less, (Some,_)->sparql_order_by; %s"
+              % ("every path ends in then_with(rest)" if loop_form is None else "one iteration of the loop over the criteria"))
     else:
         ck.bad("R14.1", key + "#table", "decision table of one ORDER BY key is %s (expected unbound<bound, both unbound Equal, bound via "
                "sparql_order_by, and later keys consulted on every path)" % (msgs or sorted(table)), fn.loc)
@@ -104,6 +217,18 @@ def cmp_bindings_rule(ck, facts):
             ck.ok("R14.1", "reverse() applied only when the key's `desc` flag is true")
         else:
             ck.bad("R14.1", key + "#reverse-guard", "reverse() is not guarded by the key's DESC flag", fn.loc)
+    if loop_form is not None:
+        if loop_form["breaks"]:
+            ck.bad("R14.1", key + "#then-with", "the loop over the criteria can be left from its body (`break`) to the code after the loop: the "
+                   "comparison then ends on the current criterion with Equal and the remaining criteria are ignored", fn.loc)
+        elif loop_form["ties_continue"] and loop_form["early_return_computed"] and loop_form["exit_equal"]:
+            ck.ok("R14.1", "loop over the criteria: a tie goes on to the next criterion, the first non-tie is returned, Equal after the last")
+        else:
+            ck.bad("R14.1", key + "#then-with", "ties on one key are not broken by the remaining keys: in the loop over the criteria %s" % (
+                "a tie does not reach the next iteration" if not loop_form["ties_continue"] else
+                "the early return does not return the computed ordering" if not loop_form["early_return_computed"] else
+                "the result after the last criterion is not Ordering::Equal"), fn.loc)
+        return
     # then_with recursion on the rest of the criteria
     tw = [t for _, t in fn.calls() if (t["f"].get("name") or "").endswith("cmp::Ordering::then_with")]
     rec_ok = False
